@@ -356,7 +356,173 @@ Structs == <<
   <<"UPTransportLayerInformation", "choice", FALSE, << <<"GTPTunnel", FALSE>>, <<"ChoiceExtensions", FALSE>> >> >>,
   <<"QosCharacteristics", "choice", FALSE, << <<"NonDynamic5QI", FALSE>>, <<"Dynamic5QI", FALSE>>, <<"ChoiceExtensions", FALSE>> >> >>,
   <<"UENGAPIDs", "choice", FALSE, << <<"UENGAPIDPair", FALSE>>, <<"AMFUENGAPID", FALSE>>, <<"ChoiceExtensions", FALSE>> >> >>,
-  <<"Cause", "choice", FALSE, << <<"RadioNetwork", FALSE>>, <<"Transport", FALSE>>, <<"Nas", FALSE>>, <<"Protocol", FALSE>>, <<"Misc", FALSE>>, <<"ChoiceExtensions", FALSE>> >> >> >>
+  <<"Cause", "choice", FALSE, << <<"RadioNetwork", FALSE>>, <<"Transport", FALSE>>, <<"Nas", FALSE>>, <<"Protocol", FALSE>>, <<"Misc", FALSE>>, <<"ChoiceExtensions", FALSE>> >> >>,
+   \* the other structured types of 9.4.5 and the transfer types (transcribed in the third session; 163 of 165 recalled definitions agreed
+   \* with the tags at once, the two that did not - an OPTIONAL flag each, PDUSessionResourceModifyItemModRes and SONConfigurationTransfer -
+   \* could not be adjudicated without the text of the standard and are left out)
+   <<"AMFPagingTarget", "choice", FALSE, << <<"GlobalRANNodeID", FALSE>>, <<"TAI", FALSE>>, <<"ChoiceExtensions", FALSE>> >> >>,
+   <<"AMFTNLAssociationSetupItem", "seq", TRUE, << <<"AMFTNLAssociationAddress", FALSE>>, <<"IEExtensions", TRUE>> >> >>,
+   <<"AMFTNLAssociationToAddItem", "seq", TRUE, << <<"AMFTNLAssociationAddress", FALSE>>, <<"TNLAssociationUsage", TRUE>>, <<"TNLAddressWeightFactor", FALSE>>, <<"IEExtensions", TRUE>> >> >>,
+   <<"AMFTNLAssociationToRemoveItem", "seq", TRUE, << <<"AMFTNLAssociationAddress", FALSE>>, <<"IEExtensions", TRUE>> >> >>,
+   <<"AMFTNLAssociationToUpdateItem", "seq", TRUE, << <<"AMFTNLAssociationAddress", FALSE>>, <<"TNLAssociationUsage", TRUE>>, <<"TNLAddressWeightFactor", TRUE>>, <<"IEExtensions", TRUE>> >> >>,
+   <<"AreaOfInterest", "seq", TRUE, << <<"AreaOfInterestTAIList", TRUE>>, <<"AreaOfInterestCellList", TRUE>>, <<"AreaOfInterestRANNodeList", TRUE>>, <<"IEExtensions", TRUE>> >> >>,
+   <<"AreaOfInterestCellItem", "seq", TRUE, << <<"NGRANCGI", FALSE>>, <<"IEExtensions", TRUE>> >> >>,
+   <<"AreaOfInterestItem", "seq", TRUE, << <<"AreaOfInterest", FALSE>>, <<"LocationReportingReferenceID", FALSE>>, <<"IEExtensions", TRUE>> >> >>,
+   <<"AreaOfInterestRANNodeItem", "seq", TRUE, << <<"GlobalRANNodeID", FALSE>>, <<"IEExtensions", TRUE>> >> >>,
+   <<"AreaOfInterestTAIItem", "seq", TRUE, << <<"TAI", FALSE>>, <<"IEExtensions", TRUE>> >> >>,
+   <<"AssistanceDataForPaging", "seq", TRUE, << <<"AssistanceDataForRecommendedCells", TRUE>>, <<"PagingAttemptInformation", TRUE>>, <<"IEExtensions", TRUE>> >> >>,
+   <<"AssistanceDataForRecommendedCells", "seq", TRUE, << <<"RecommendedCellsForPaging", FALSE>>, <<"IEExtensions", TRUE>> >> >>,
+   <<"BroadcastCancelledAreaList", "choice", FALSE, << <<"CellIDCancelledEUTRA", FALSE>>, <<"TAICancelledEUTRA", FALSE>>, <<"EmergencyAreaIDCancelledEUTRA", FALSE>>, <<"CellIDCancelledNR", FALSE>>, <<"TAICancelledNR", FALSE>>, <<"EmergencyAreaIDCancelledNR", FALSE>>, <<"ChoiceExtensions", FALSE>> >> >>,
+   <<"BroadcastCompletedAreaList", "choice", FALSE, << <<"CellIDBroadcastEUTRA", FALSE>>, <<"TAIBroadcastEUTRA", FALSE>>, <<"EmergencyAreaIDBroadcastEUTRA", FALSE>>, <<"CellIDBroadcastNR", FALSE>>, <<"TAIBroadcastNR", FALSE>>, <<"EmergencyAreaIDBroadcastNR", FALSE>>, <<"ChoiceExtensions", FALSE>> >> >>,
+   <<"COUNTValueForPDCPSN12", "seq", TRUE, << <<"PDCPSN12", FALSE>>, <<"HFNPDCPSN12", FALSE>>, <<"IEExtensions", TRUE>> >> >>,
+   <<"COUNTValueForPDCPSN18", "seq", TRUE, << <<"PDCPSN18", FALSE>>, <<"HFNPDCPSN18", FALSE>>, <<"IEExtensions", TRUE>> >> >>,
+   <<"CPTransportLayerInformation", "choice", FALSE, << <<"EndpointIPAddress", FALSE>>, <<"ChoiceExtensions", FALSE>> >> >>,
+   <<"CancelledCellsInEAIEUTRAItem", "seq", TRUE, << <<"EUTRACGI", FALSE>>, <<"NumberOfBroadcasts", FALSE>>, <<"IEExtensions", TRUE>> >> >>,
+   <<"CancelledCellsInEAINRItem", "seq", TRUE, << <<"NRCGI", FALSE>>, <<"NumberOfBroadcasts", FALSE>>, <<"IEExtensions", TRUE>> >> >>,
+   <<"CancelledCellsInTAIEUTRAItem", "seq", TRUE, << <<"EUTRACGI", FALSE>>, <<"NumberOfBroadcasts", FALSE>>, <<"IEExtensions", TRUE>> >> >>,
+   <<"CancelledCellsInTAINRItem", "seq", TRUE, << <<"NRCGI", FALSE>>, <<"NumberOfBroadcasts", FALSE>>, <<"IEExtensions", TRUE>> >> >>,
+   <<"CellIDBroadcastEUTRAItem", "seq", TRUE, << <<"EUTRACGI", FALSE>>, <<"IEExtensions", TRUE>> >> >>,
+   <<"CellIDBroadcastNRItem", "seq", TRUE, << <<"NRCGI", FALSE>>, <<"IEExtensions", TRUE>> >> >>,
+   <<"CellIDCancelledEUTRAItem", "seq", TRUE, << <<"EUTRACGI", FALSE>>, <<"NumberOfBroadcasts", FALSE>>, <<"IEExtensions", TRUE>> >> >>,
+   <<"CellIDCancelledNRItem", "seq", TRUE, << <<"NRCGI", FALSE>>, <<"NumberOfBroadcasts", FALSE>>, <<"IEExtensions", TRUE>> >> >>,
+   <<"CellIDListForRestart", "choice", FALSE, << <<"EUTRACGIListforRestart", FALSE>>, <<"NRCGIListforRestart", FALSE>>, <<"ChoiceExtensions", FALSE>> >> >>,
+   <<"CellType", "seq", TRUE, << <<"CellSize", FALSE>>, <<"IEExtensions", TRUE>> >> >>,
+   <<"CompletedCellsInEAIEUTRAItem", "seq", TRUE, << <<"EUTRACGI", FALSE>>, <<"IEExtensions", TRUE>> >> >>,
+   <<"CompletedCellsInEAINRItem", "seq", TRUE, << <<"NRCGI", FALSE>>, <<"IEExtensions", TRUE>> >> >>,
+   <<"CompletedCellsInTAIEUTRAItem", "seq", TRUE, << <<"EUTRACGI", FALSE>>, <<"IEExtensions", TRUE>> >> >>,
+   <<"CompletedCellsInTAINRItem", "seq", TRUE, << <<"NRCGI", FALSE>>, <<"IEExtensions", TRUE>> >> >>,
+   <<"CoreNetworkAssistanceInformation", "seq", TRUE, << <<"UEIdentityIndexValue", FALSE>>, <<"UESpecificDRX", TRUE>>, <<"PeriodicRegistrationUpdateTimer", FALSE>>, <<"MICOModeIndication", TRUE>>, <<"TAIListForInactive", FALSE>>, <<"ExpectedUEBehaviour", TRUE>>, <<"IEExtensions", TRUE>> >> >>,
+   <<"CriticalityDiagnostics", "seq", TRUE, << <<"ProcedureCode", TRUE>>, <<"TriggeringMessage", TRUE>>, <<"ProcedureCriticality", TRUE>>, <<"IEsCriticalityDiagnostics", TRUE>>, <<"IEExtensions", TRUE>> >> >>,
+   <<"CriticalityDiagnosticsIEItem", "seq", TRUE, << <<"IECriticality", FALSE>>, <<"IEID", FALSE>>, <<"TypeOfError", FALSE>>, <<"IEExtensions", TRUE>> >> >>,
+   <<"DRBStatusDL", "choice", FALSE, << <<"DRBStatusDL12", FALSE>>, <<"DRBStatusDL18", FALSE>>, <<"ChoiceExtensions", FALSE>> >> >>,
+   <<"DRBStatusDL12", "seq", TRUE, << <<"DLCOUNTValue", FALSE>>, <<"IEExtension", TRUE>> >> >>,
+   <<"DRBStatusDL18", "seq", TRUE, << <<"DLCOUNTValue", FALSE>>, <<"IEExtension", TRUE>> >> >>,
+   <<"DRBStatusUL", "choice", FALSE, << <<"DRBStatusUL12", FALSE>>, <<"DRBStatusUL18", FALSE>>, <<"ChoiceExtensions", FALSE>> >> >>,
+   <<"DRBStatusUL12", "seq", TRUE, << <<"ULCOUNTValue", FALSE>>, <<"ReceiveStatusOfULPDCPSDUs", TRUE>>, <<"IEExtension", TRUE>> >> >>,
+   <<"DRBStatusUL18", "seq", TRUE, << <<"ULCOUNTValue", FALSE>>, <<"ReceiveStatusOfULPDCPSDUs", TRUE>>, <<"IEExtension", TRUE>> >> >>,
+   <<"DRBsSubjectToStatusTransferItem", "seq", TRUE, << <<"DRBID", FALSE>>, <<"DRBStatusUL", FALSE>>, <<"DRBStatusDL", FALSE>>, <<"IEExtension", TRUE>> >> >>,
+   <<"DRBsToQosFlowsMappingItem", "seq", TRUE, << <<"DRBID", FALSE>>, <<"AssociatedQosFlowList", FALSE>>, <<"IEExtensions", TRUE>> >> >>,
+   <<"DataForwardingResponseDRBItem", "seq", TRUE, << <<"DRBID", FALSE>>, <<"DLForwardingUPTNLInformation", TRUE>>, <<"ULForwardingUPTNLInformation", TRUE>>, <<"IEExtensions", TRUE>> >> >>,
+   <<"Dynamic5QIDescriptor", "seq", TRUE, << <<"PriorityLevelQos", FALSE>>, <<"PacketDelayBudget", FALSE>>, <<"PacketErrorRate", FALSE>>, <<"FiveQI", TRUE>>, <<"DelayCritical", TRUE>>, <<"AveragingWindow", TRUE>>, <<"MaximumDataBurstVolume", TRUE>>, <<"IEExtensions", TRUE>> >> >>,
+   <<"EPSTAI", "seq", TRUE, << <<"PLMNIdentity", FALSE>>, <<"EPSTAC", FALSE>>, <<"IEExtensions", TRUE>> >> >>,
+   <<"ERABInformationItem", "seq", TRUE, << <<"ERABID", FALSE>>, <<"DLForwarding", TRUE>>, <<"IEExtensions", TRUE>> >> >>,
+   <<"EUTRACGI", "seq", TRUE, << <<"PLMNIdentity", FALSE>>, <<"EUTRACellIdentity", FALSE>>, <<"IEExtensions", TRUE>> >> >>,
+   <<"EmergencyAreaIDBroadcastEUTRAItem", "seq", TRUE, << <<"EmergencyAreaID", FALSE>>, <<"CompletedCellsInEAIEUTRA", FALSE>>, <<"IEExtensions", TRUE>> >> >>,
+   <<"EmergencyAreaIDBroadcastNRItem", "seq", TRUE, << <<"EmergencyAreaID", FALSE>>, <<"CompletedCellsInEAINR", FALSE>>, <<"IEExtensions", TRUE>> >> >>,
+   <<"EmergencyAreaIDCancelledEUTRAItem", "seq", TRUE, << <<"EmergencyAreaID", FALSE>>, <<"CancelledCellsInEAIEUTRA", FALSE>>, <<"IEExtensions", TRUE>> >> >>,
+   <<"EmergencyAreaIDCancelledNRItem", "seq", TRUE, << <<"EmergencyAreaID", FALSE>>, <<"CancelledCellsInEAINR", FALSE>>, <<"IEExtensions", TRUE>> >> >>,
+   <<"EmergencyFallbackIndicator", "seq", TRUE, << <<"EmergencyFallbackRequestIndicator", FALSE>>, <<"EmergencyServiceTargetCN", TRUE>>, <<"IEExtensions", TRUE>> >> >>,
+   <<"ExpectedUEActivityBehaviour", "seq", TRUE, << <<"ExpectedActivityPeriod", TRUE>>, <<"ExpectedIdlePeriod", TRUE>>, <<"SourceOfUEActivityBehaviourInformation", TRUE>>, <<"IEExtensions", TRUE>> >> >>,
+   <<"ExpectedUEBehaviour", "seq", TRUE, << <<"ExpectedUEActivityBehaviour", TRUE>>, <<"ExpectedHOInterval", TRUE>>, <<"ExpectedUEMobility", TRUE>>, <<"ExpectedUEMovingTrajectory", TRUE>>, <<"IEExtensions", TRUE>> >> >>,
+   <<"ExpectedUEMovingTrajectoryItem", "seq", TRUE, << <<"NGRANCGI", FALSE>>, <<"TimeStayedInCell", TRUE>>, <<"IEExtensions", TRUE>> >> >>,
+   <<"ForbiddenAreaInformationItem", "seq", TRUE, << <<"PLMNIdentity", FALSE>>, <<"ForbiddenTACs", FALSE>>, <<"IEExtensions", TRUE>> >> >>,
+   <<"GBRQosInformation", "seq", TRUE, << <<"MaximumFlowBitRateDL", FALSE>>, <<"MaximumFlowBitRateUL", FALSE>>, <<"GuaranteedFlowBitRateDL", FALSE>>, <<"GuaranteedFlowBitRateUL", FALSE>>, <<"NotificationControl", TRUE>>, <<"MaximumPacketLossRateDL", TRUE>>, <<"MaximumPacketLossRateUL", TRUE>>, <<"IEExtensions", TRUE>> >> >>,
+   <<"GlobalN3IWFID", "seq", TRUE, << <<"PLMNIdentity", FALSE>>, <<"N3IWFID", FALSE>>, <<"IEExtensions", TRUE>> >> >>,
+   <<"GlobalNgENBID", "seq", TRUE, << <<"PLMNIdentity", FALSE>>, <<"NgENBID", FALSE>>, <<"IEExtensions", TRUE>> >> >>,
+   <<"HandoverCommandTransfer", "seq", TRUE, << <<"DLForwardingUPTNLInformation", TRUE>>, <<"QosFlowToBeForwardedList", TRUE>>, <<"DataForwardingResponseDRBList", TRUE>>, <<"IEExtensions", TRUE>> >> >>,
+   <<"HandoverPreparationUnsuccessfulTransfer", "seq", TRUE, << <<"Cause", FALSE>>, <<"IEExtensions", TRUE>> >> >>,
+   <<"HandoverRequestAcknowledgeTransfer", "seq", TRUE, << <<"DLNGUUPTNLInformation", FALSE>>, <<"DLForwardingUPTNLInformation", TRUE>>, <<"SecurityResult", TRUE>>, <<"QosFlowSetupResponseList", FALSE>>, <<"QosFlowFailedToSetupList", TRUE>>, <<"DataForwardingResponseDRBList", TRUE>>, <<"IEExtensions", TRUE>> >> >>,
+   <<"HandoverRequiredTransfer", "seq", TRUE, << <<"DirectForwardingPathAvailability", TRUE>>, <<"IEExtensions", TRUE>> >> >>,
+   <<"HandoverResourceAllocationUnsuccessfulTransfer", "seq", TRUE, << <<"Cause", FALSE>>, <<"CriticalityDiagnostics", TRUE>>, <<"IEExtensions", TRUE>> >> >>,
+   <<"InfoOnRecommendedCellsAndRANNodesForPaging", "seq", TRUE, << <<"RecommendedCellsForPaging", FALSE>>, <<"RecommendRANNodesForPaging", FALSE>>, <<"IEExtensions", TRUE>> >> >>,
+   <<"LastVisitedCellInformation", "choice", FALSE, << <<"NGRANCell", FALSE>>, <<"EUTRANCell", FALSE>>, <<"UTRANCell", FALSE>>, <<"GERANCell", FALSE>>, <<"ChoiceExtensions", FALSE>> >> >>,
+   <<"LastVisitedCellItem", "seq", TRUE, << <<"LastVisitedCellInformation", FALSE>>, <<"IEExtensions", TRUE>> >> >>,
+   <<"LastVisitedNGRANCellInformation", "seq", TRUE, << <<"GlobalCellID", FALSE>>, <<"CellType", FALSE>>, <<"TimeUEStayedInCell", FALSE>>, <<"TimeUEStayedInCellEnhancedGranularity", TRUE>>, <<"HOCauseValue", TRUE>>, <<"IEExtensions", TRUE>> >> >>,
+   <<"LocationReportingRequestType", "seq", TRUE, << <<"EventType", FALSE>>, <<"ReportArea", FALSE>>, <<"AreaOfInterestList", TRUE>>, <<"LocationReportingReferenceIDToBeCancelled", TRUE>>, <<"IEExtensions", TRUE>> >> >>,
+   <<"MultipleTNLInformation", "seq", TRUE, << <<"TNLInformationList", FALSE>>, <<"IEExtensions", TRUE>> >> >>,
+   <<"N3IWFID", "choice", FALSE, << <<"N3IWFID", FALSE>>, <<"ChoiceExtensions", FALSE>> >> >>,
+   <<"NGRANCGI", "choice", FALSE, << <<"NRCGI", FALSE>>, <<"EUTRACGI", FALSE>>, <<"ChoiceExtensions", FALSE>> >> >>,
+   <<"NgENBID", "choice", FALSE, << <<"MacroNgENBID", FALSE>>, <<"ShortMacroNgENBID", FALSE>>, <<"LongMacroNgENBID", FALSE>>, <<"ChoiceExtensions", FALSE>> >> >>,
+   <<"OverloadResponse", "choice", FALSE, << <<"OverloadAction", FALSE>>, <<"ChoiceExtensions", FALSE>> >> >>,
+   <<"OverloadStartNSSAIItem", "seq", TRUE, << <<"SliceOverloadList", FALSE>>, <<"SliceOverloadResponse", TRUE>>, <<"SliceTrafficLoadReductionIndication", TRUE>>, <<"IEExtensions", TRUE>> >> >>,
+   <<"PDUSessionResourceAdmittedItem", "seq", TRUE, << <<"PDUSessionID", FALSE>>, <<"HandoverRequestAcknowledgeTransfer", FALSE>>, <<"IEExtensions", TRUE>> >> >>,
+   <<"PDUSessionResourceFailedToModifyItemModCfm", "seq", TRUE, << <<"PDUSessionID", FALSE>>, <<"PDUSessionResourceModifyIndicationUnsuccessfulTransfer", FALSE>>, <<"IEExtensions", TRUE>> >> >>,
+   <<"PDUSessionResourceFailedToModifyItemModRes", "seq", TRUE, << <<"PDUSessionID", FALSE>>, <<"PDUSessionResourceModifyUnsuccessfulTransfer", FALSE>>, <<"IEExtensions", TRUE>> >> >>,
+   <<"PDUSessionResourceFailedToSetupItemCxtFail", "seq", TRUE, << <<"PDUSessionID", FALSE>>, <<"PDUSessionResourceSetupUnsuccessfulTransfer", FALSE>>, <<"IEExtensions", TRUE>> >> >>,
+   <<"PDUSessionResourceFailedToSetupItemCxtRes", "seq", TRUE, << <<"PDUSessionID", FALSE>>, <<"PDUSessionResourceSetupUnsuccessfulTransfer", FALSE>>, <<"IEExtensions", TRUE>> >> >>,
+   <<"PDUSessionResourceFailedToSetupItemHOAck", "seq", TRUE, << <<"PDUSessionID", FALSE>>, <<"HandoverResourceAllocationUnsuccessfulTransfer", FALSE>>, <<"IEExtensions", TRUE>> >> >>,
+   <<"PDUSessionResourceFailedToSetupItemPSReq", "seq", TRUE, << <<"PDUSessionID", FALSE>>, <<"PathSwitchRequestSetupFailedTransfer", FALSE>>, <<"IEExtensions", TRUE>> >> >>,
+   <<"PDUSessionResourceFailedToSetupItemSURes", "seq", TRUE, << <<"PDUSessionID", FALSE>>, <<"PDUSessionResourceSetupUnsuccessfulTransfer", FALSE>>, <<"IEExtensions", TRUE>> >> >>,
+   <<"PDUSessionResourceHandoverItem", "seq", TRUE, << <<"PDUSessionID", FALSE>>, <<"HandoverCommandTransfer", FALSE>>, <<"IEExtensions", TRUE>> >> >>,
+   <<"PDUSessionResourceInformationItem", "seq", TRUE, << <<"PDUSessionID", FALSE>>, <<"QosFlowInformationList", FALSE>>, <<"DRBsToQosFlowsMappingList", TRUE>>, <<"IEExtensions", TRUE>> >> >>,
+   <<"PDUSessionResourceItemCxtRelReq", "seq", TRUE, << <<"PDUSessionID", FALSE>>, <<"IEExtensions", TRUE>> >> >>,
+   <<"PDUSessionResourceItemHORqd", "seq", TRUE, << <<"PDUSessionID", FALSE>>, <<"HandoverRequiredTransfer", FALSE>>, <<"IEExtensions", TRUE>> >> >>,
+   <<"PDUSessionResourceModifyIndicationUnsuccessfulTransfer", "seq", TRUE, << <<"Cause", FALSE>>, <<"IEExtensions", TRUE>> >> >>,
+   <<"PDUSessionResourceModifyItemModCfm", "seq", TRUE, << <<"PDUSessionID", FALSE>>, <<"PDUSessionResourceModifyConfirmTransfer", FALSE>>, <<"IEExtensions", TRUE>> >> >>,
+   <<"PDUSessionResourceModifyItemModInd", "seq", TRUE, << <<"PDUSessionID", FALSE>>, <<"PDUSessionResourceModifyIndicationTransfer", FALSE>>, <<"IEExtensions", TRUE>> >> >>,
+   <<"PDUSessionResourceModifyItemModReq", "seq", TRUE, << <<"PDUSessionID", FALSE>>, <<"NASPDU", TRUE>>, <<"PDUSessionResourceModifyRequestTransfer", FALSE>>, <<"IEExtensions", TRUE>> >> >>,
+   <<"PDUSessionResourceModifyUnsuccessfulTransfer", "seq", TRUE, << <<"Cause", FALSE>>, <<"CriticalityDiagnostics", TRUE>>, <<"IEExtensions", TRUE>> >> >>,
+   <<"PDUSessionResourceNotifyItem", "seq", TRUE, << <<"PDUSessionID", FALSE>>, <<"PDUSessionResourceNotifyTransfer", FALSE>>, <<"IEExtensions", TRUE>> >> >>,
+   <<"PDUSessionResourceNotifyReleasedTransfer", "seq", TRUE, << <<"Cause", FALSE>>, <<"IEExtensions", TRUE>> >> >>,
+   <<"PDUSessionResourceNotifyTransfer", "seq", TRUE, << <<"QosFlowNotifyList", TRUE>>, <<"QosFlowReleasedList", TRUE>>, <<"IEExtensions", TRUE>> >> >>,
+   <<"PDUSessionResourceReleasedItemNot", "seq", TRUE, << <<"PDUSessionID", FALSE>>, <<"PDUSessionResourceNotifyReleasedTransfer", FALSE>>, <<"IEExtensions", TRUE>> >> >>,
+   <<"PDUSessionResourceReleasedItemPSAck", "seq", TRUE, << <<"PDUSessionID", FALSE>>, <<"PathSwitchRequestUnsuccessfulTransfer", FALSE>>, <<"IEExtensions", TRUE>> >> >>,
+   <<"PDUSessionResourceReleasedItemPSFail", "seq", TRUE, << <<"PDUSessionID", FALSE>>, <<"PathSwitchRequestUnsuccessfulTransfer", FALSE>>, <<"IEExtensions", TRUE>> >> >>,
+   <<"PDUSessionResourceSetupItemHOReq", "seq", TRUE, << <<"PDUSessionID", FALSE>>, <<"SNSSAI", FALSE>>, <<"HandoverRequestTransfer", FALSE>>, <<"IEExtensions", TRUE>> >> >>,
+   <<"PDUSessionResourceSetupUnsuccessfulTransfer", "seq", TRUE, << <<"Cause", FALSE>>, <<"CriticalityDiagnostics", TRUE>>, <<"IEExtensions", TRUE>> >> >>,
+   <<"PDUSessionResourceSwitchedItem", "seq", TRUE, << <<"PDUSessionID", FALSE>>, <<"PathSwitchRequestAcknowledgeTransfer", FALSE>>, <<"IEExtensions", TRUE>> >> >>,
+   <<"PDUSessionResourceToBeSwitchedDLItem", "seq", TRUE, << <<"PDUSessionID", FALSE>>, <<"PathSwitchRequestTransfer", FALSE>>, <<"IEExtensions", TRUE>> >> >>,
+   <<"PDUSessionResourceToReleaseItemHOCmd", "seq", TRUE, << <<"PDUSessionID", FALSE>>, <<"HandoverPreparationUnsuccessfulTransfer", FALSE>>, <<"IEExtensions", TRUE>> >> >>,
+   <<"PWSFailedCellIDList", "choice", FALSE, << <<"EUTRACGIPWSFailedList", FALSE>>, <<"NRCGIPWSFailedList", FALSE>>, <<"ChoiceExtensions", FALSE>> >> >>,
+   <<"PacketErrorRate", "seq", TRUE, << <<"PERScalar", FALSE>>, <<"PERExponent", FALSE>>, <<"IEExtensions", TRUE>> >> >>,
+   <<"PagingAttemptInformation", "seq", TRUE, << <<"PagingAttemptCount", FALSE>>, <<"IntendedNumberOfPagingAttempts", FALSE>>, <<"NextPagingAreaScope", TRUE>>, <<"IEExtensions", TRUE>> >> >>,
+   <<"PathSwitchRequestAcknowledgeTransfer", "seq", TRUE, << <<"ULNGUUPTNLInformation", TRUE>>, <<"SecurityIndication", TRUE>>, <<"IEExtensions", TRUE>> >> >>,
+   <<"PathSwitchRequestSetupFailedTransfer", "seq", TRUE, << <<"Cause", FALSE>>, <<"IEExtensions", TRUE>> >> >>,
+   <<"PathSwitchRequestTransfer", "seq", TRUE, << <<"DLNGUUPTNLInformation", FALSE>>, <<"DLNGUTNLInformationReused", TRUE>>, <<"UserPlaneSecurityInformation", TRUE>>, <<"QosFlowAcceptedList", FALSE>>, <<"IEExtensions", TRUE>> >> >>,
+   <<"PathSwitchRequestUnsuccessfulTransfer", "seq", TRUE, << <<"Cause", FALSE>>, <<"IEExtensions", TRUE>> >> >>,
+   <<"QosFlowAcceptedItem", "seq", TRUE, << <<"QosFlowIdentifier", FALSE>>, <<"IEExtensions", TRUE>> >> >>,
+   <<"QosFlowAddOrModifyRequestItem", "seq", TRUE, << <<"QosFlowIdentifier", FALSE>>, <<"QosFlowLevelQosParameters", TRUE>>, <<"ERABID", TRUE>>, <<"IEExtensions", TRUE>> >> >>,
+   <<"QosFlowAddOrModifyResponseItem", "seq", TRUE, << <<"QosFlowIdentifier", FALSE>>, <<"IEExtensions", TRUE>> >> >>,
+   <<"QosFlowInformationItem", "seq", TRUE, << <<"QosFlowIdentifier", FALSE>>, <<"DLForwarding", TRUE>>, <<"IEExtensions", TRUE>> >> >>,
+   <<"QosFlowItem", "seq", TRUE, << <<"QosFlowIdentifier", FALSE>>, <<"Cause", FALSE>>, <<"IEExtensions", TRUE>> >> >>,
+   <<"QosFlowModifyConfirmItem", "seq", TRUE, << <<"QosFlowIdentifier", FALSE>>, <<"IEExtensions", TRUE>> >> >>,
+   <<"QosFlowNotifyItem", "seq", TRUE, << <<"QosFlowIdentifier", FALSE>>, <<"NotificationCause", FALSE>>, <<"IEExtensions", TRUE>> >> >>,
+   <<"QosFlowSetupResponseItemHOReqAck", "seq", TRUE, << <<"QosFlowIdentifier", FALSE>>, <<"DataForwardingAccepted", TRUE>>, <<"IEExtensions", TRUE>> >> >>,
+   <<"QosFlowToBeForwardedItem", "seq", TRUE, << <<"QosFlowIdentifier", FALSE>>, <<"IEExtensions", TRUE>> >> >>,
+   <<"RANStatusTransferTransparentContainer", "seq", TRUE, << <<"DRBsSubjectToStatusTransferList", FALSE>>, <<"IEExtensions", TRUE>> >> >>,
+   <<"RATRestrictionsItem", "seq", TRUE, << <<"PLMNIdentity", FALSE>>, <<"RATRestrictionInformation", FALSE>>, <<"IEExtensions", TRUE>> >> >>,
+   <<"RecommendedCellItem", "seq", TRUE, << <<"NGRANCGI", FALSE>>, <<"TimeStayedInCell", TRUE>>, <<"IEExtensions", TRUE>> >> >>,
+   <<"RecommendedCellsForPaging", "seq", TRUE, << <<"RecommendedCellList", FALSE>>, <<"IEExtensions", TRUE>> >> >>,
+   <<"RecommendedRANNodeItem", "seq", TRUE, << <<"AMFPagingTarget", FALSE>>, <<"IEExtensions", TRUE>> >> >>,
+   <<"RecommendedRANNodesForPaging", "seq", TRUE, << <<"RecommendedRANNodeList", FALSE>>, <<"IEExtensions", TRUE>> >> >>,
+   <<"ResetType", "choice", FALSE, << <<"NGInterface", FALSE>>, <<"PartOfNGInterface", FALSE>>, <<"ChoiceExtensions", FALSE>> >> >>,
+   <<"SONInformation", "choice", FALSE, << <<"SONInformationRequest", FALSE>>, <<"SONInformationReply", FALSE>>, <<"ChoiceExtensions", FALSE>> >> >>,
+   <<"SONInformationReply", "seq", TRUE, << <<"XnTNLConfigurationInfo", TRUE>>, <<"IEExtensions", TRUE>> >> >>,
+   <<"SecurityContext", "seq", TRUE, << <<"NextHopChainingCount", FALSE>>, <<"NextHopNH", FALSE>>, <<"IEExtensions", TRUE>> >> >>,
+   <<"SecurityIndication", "seq", TRUE, << <<"IntegrityProtectionIndication", FALSE>>, <<"ConfidentialityProtectionIndication", FALSE>>, <<"MaximumIntegrityProtectedDataRate", TRUE>>, <<"IEExtensions", TRUE>> >> >>,
+   <<"SecurityResult", "seq", TRUE, << <<"IntegrityProtectionResult", FALSE>>, <<"ConfidentialityProtectionResult", FALSE>>, <<"IEExtensions", TRUE>> >> >>,
+   <<"ServiceAreaInformationItem", "seq", TRUE, << <<"PLMNIdentity", FALSE>>, <<"AllowedTACs", TRUE>>, <<"NotAllowedTACs", TRUE>>, <<"IEExtensions", TRUE>> >> >>,
+   <<"SingleTNLInformation", "seq", TRUE, << <<"UPTransportLayerInformation", FALSE>>, <<"IEExtensions", TRUE>> >> >>,
+   <<"SliceOverloadItem", "seq", TRUE, << <<"SNSSAI", FALSE>>, <<"IEExtensions", TRUE>> >> >>,
+   <<"SourceNGRANNodeToTargetNGRANNodeTransparentContainer", "seq", TRUE, << <<"RRCContainer", FALSE>>, <<"PDUSessionResourceInformationList", TRUE>>, <<"ERABInformationList", TRUE>>, <<"TargetCellID", FALSE>>, <<"IndexToRFSP", TRUE>>, <<"UEHistoryInformation", FALSE>>, <<"IEExtensions", TRUE>> >> >>,
+   <<"SourceRANNodeID", "seq", TRUE, << <<"GlobalRANNodeID", FALSE>>, <<"SelectedTAI", FALSE>>, <<"IEExtensions", TRUE>> >> >>,
+   <<"TAIBroadcastEUTRAItem", "seq", TRUE, << <<"TAI", FALSE>>, <<"CompletedCellsInTAIEUTRA", FALSE>>, <<"IEExtensions", TRUE>> >> >>,
+   <<"TAIBroadcastNRItem", "seq", TRUE, << <<"TAI", FALSE>>, <<"CompletedCellsInTAINR", FALSE>>, <<"IEExtensions", TRUE>> >> >>,
+   <<"TAICancelledEUTRAItem", "seq", TRUE, << <<"TAI", FALSE>>, <<"CancelledCellsInTAIEUTRA", FALSE>>, <<"IEExtensions", TRUE>> >> >>,
+   <<"TAICancelledNRItem", "seq", TRUE, << <<"TAI", FALSE>>, <<"CancelledCellsInTAINR", FALSE>>, <<"IEExtensions", TRUE>> >> >>,
+   <<"TAIListForInactiveItem", "seq", TRUE, << <<"TAI", FALSE>>, <<"IEExtensions", TRUE>> >> >>,
+   <<"TAIListForPagingItem", "seq", TRUE, << <<"TAI", FALSE>>, <<"IEExtensions", TRUE>> >> >>,
+   <<"TNLAssociationItem", "seq", TRUE, << <<"TNLAssociationAddress", FALSE>>, <<"Cause", FALSE>>, <<"IEExtensions", TRUE>> >> >>,
+   <<"TNLInformationItem", "seq", TRUE, << <<"QosFlowPerTNLInformation", FALSE>>, <<"IEExtensions", TRUE>> >> >>,
+   <<"TargetID", "choice", FALSE, << <<"TargetRANNodeID", FALSE>>, <<"TargeteNBID", FALSE>>, <<"ChoiceExtensions", FALSE>> >> >>,
+   <<"TargetNGRANNodeToSourceNGRANNodeTransparentContainer", "seq", TRUE, << <<"RRCContainer", FALSE>>, <<"IEExtensions", TRUE>> >> >>,
+   <<"TargetRANNodeID", "seq", TRUE, << <<"GlobalRANNodeID", FALSE>>, <<"SelectedTAI", FALSE>>, <<"IEExtensions", TRUE>> >> >>,
+   <<"TargeteNBID", "seq", TRUE, << <<"GlobalENBID", FALSE>>, <<"SelectedEPSTAI", FALSE>>, <<"IEExtensions", TRUE>> >> >>,
+   <<"TraceActivation", "seq", TRUE, << <<"NGRANTraceID", FALSE>>, <<"InterfacesToTrace", FALSE>>, <<"TraceDepth", FALSE>>, <<"TraceCollectionEntityIPAddress", FALSE>>, <<"IEExtensions", TRUE>> >> >>,
+   <<"UEAssociatedLogicalNGConnectionItem", "seq", TRUE, << <<"AMFUENGAPID", TRUE>>, <<"RANUENGAPID", TRUE>>, <<"IEExtensions", TRUE>> >> >>,
+   <<"UEIdentityIndexValue", "choice", FALSE, << <<"IndexLength10", FALSE>>, <<"ChoiceExtensions", FALSE>> >> >>,
+   <<"UEPagingIdentity", "choice", FALSE, << <<"FiveGSTMSI", FALSE>>, <<"ChoiceExtensions", FALSE>> >> >>,
+   <<"UEPresenceInAreaOfInterestItem", "seq", TRUE, << <<"LocationReportingReferenceID", FALSE>>, <<"UEPresence", FALSE>>, <<"IEExtensions", TRUE>> >> >>,
+   <<"UERadioCapabilityForPaging", "seq", TRUE, << <<"UERadioCapabilityForPagingOfNR", TRUE>>, <<"UERadioCapabilityForPagingOfEUTRA", TRUE>>, <<"IEExtensions", TRUE>> >> >>,
+   <<"ULNGUUPTNLModifyItem", "seq", TRUE, << <<"ULNGUUPTNLInformation", FALSE>>, <<"DLNGUUPTNLInformation", FALSE>>, <<"IEExtensions", TRUE>> >> >>,
+   <<"UPTNLInformation", "choice", FALSE, << <<"SingleTNLInformation", FALSE>>, <<"MultipleTNLInformation", FALSE>>, <<"ChoiceExtensions", FALSE>> >> >>,
+   <<"UnavailableGUAMIItem", "seq", TRUE, << <<"GUAMI", FALSE>>, <<"TimerApproachForGUAMIRemoval", TRUE>>, <<"BackupAMFName", TRUE>>, <<"IEExtensions", TRUE>> >> >>,
+   <<"UserLocationInformationEUTRA", "seq", TRUE, << <<"EUTRACGI", FALSE>>, <<"TAI", FALSE>>, <<"TimeStamp", TRUE>>, <<"IEExtensions", TRUE>> >> >>,
+   <<"UserLocationInformationN3IWF", "seq", TRUE, << <<"IPAddress", FALSE>>, <<"PortNumber", FALSE>>, <<"IEExtensions", TRUE>> >> >>,
+   <<"UserPlaneSecurityInformation", "seq", TRUE, << <<"SecurityResult", FALSE>>, <<"SecurityIndication", FALSE>>, <<"IEExtensions", TRUE>> >> >>,
+   <<"WarningAreaList", "choice", FALSE, << <<"EUTRACGIListForWarning", FALSE>>, <<"NRCGIListForWarning", FALSE>>, <<"TAIListForWarning", FALSE>>, <<"EmergencyAreaIDList", FALSE>>, <<"ChoiceExtensions", FALSE>> >> >>,
+   <<"XnExtTLAItem", "seq", TRUE, << <<"IPsecTLA", TRUE>>, <<"GTPTLAs", TRUE>>, <<"IEExtensions", TRUE>> >> >>,
+   <<"XnTNLConfigurationInfo", "seq", TRUE, << <<"XnTransportLayerAddresses", FALSE>>, <<"XnExtendedTransportLayerAddresses", TRUE>>, <<"IEExtensions", TRUE>> >> >> >>
 StructComplaint(r) ==
    LET keys == KeysOf(r[1]) IN
    IF keys = {} THEN "absent"
